@@ -1,8 +1,8 @@
 (* C20 — stream entry point `run_qevent`: the generic ser/de of Model/Serde.v applied to the schema
    table regenerated from qevent/src (Generated/QeventSchema.v).  Definitions only.
    ops:  0 <type name> <json>   parse the JSON tree as that type, re-serialise, parse again
-         1 <type name> <value>  serialise a value of that type (built through the public builders on
-                                the Rust side), parse it back
+         1 <type name> <value>  build a value of that type from these field values (through the public
+                                builders on the Rust side; `build` here), serialise it, parse it back
    obs:  0                                  the JSON is rejected
          1 <canonical json> <flag>          flag 1 = parses back to an equal value, 0 = to a different
                                             value, 2 = does not parse back
@@ -41,7 +41,7 @@ Definition run_qevent_op (op : N * list Z) : list Z :=
                    | _ => [-2]
                    end
           | 1%N => match dec_value (S (List.length rest)) rest with
-                   | Some (v, []) => obs_of s v
+                   | Some (v, []) => obs_of s (build s v)
                    | _ => [-2]
                    end
           | _ => [-3]
